@@ -50,7 +50,8 @@ pub struct Scn {
     /// microseconds added to the period (periods need not be whole milliseconds)
     #[serde(default)]
     pub period_frac_us: u32,
-    /// 0 ordinary; 1 = sliding log with a limit of 66-100 and three big bursts; 2 = one caller
+    /// 0 ordinary; 1 = sliding log with a limit of 66-100 and three big bursts; 3 = a limit in the
+    /// thousands and one burst that overshoots it; 2 = one caller
     /// every millisecond for 200ms against limit 1 and a fractional-millisecond period
     #[serde(default)]
     pub big: u8,
@@ -631,7 +632,7 @@ macro_rules! rl_prop {
     };
 }
 
-rl_prop!(C02, "C02", "scenario = window type, limit 1..4, period 20/50ms, timeout 0..3 periods, 2-12 callers arriving in bursts on/near period boundaries plus an idle gap and a burst, cancels while waiting, clock jumps; schedule seeded. In one run of six the wrapped service has a capacity (its readiness waits for a free slot, like tower's ConcurrencyLimit). One run in eight is a thread scenario (engine B): 2-4 shuttle threads drive clones of the real service with a no-op waker; every acquisition of a library lock, every operation on a library atomic and every verif::yield_async site is a scheduling point of the seeded thread scheduler; the clock is a paused tokio clock moved by Advance operations. Non-trivial: some caller was admitted after waiting or was rejected. Distinct = distinct event-log digest.");
+rl_prop!(C02, "C02", "scenario = window type, limit 1..4, period 20/50ms, timeout 0..3 periods, 2-12 callers arriving in bursts on/near period boundaries plus an idle gap and a burst, cancels while waiting, clock jumps; one run in forty is a big scenario (sliding log with a limit of 66-100 and three bursts, or 200 callers a millisecond apart against limit 1 and a fractional period, or a limit of 1025-1500 with a burst that overshoots it); schedule seeded. In one run of six the wrapped service has a capacity (its readiness waits for a free slot, like tower's ConcurrencyLimit). One run in eight is a thread scenario (engine B): 2-4 shuttle threads drive clones of the real service with a no-op waker; every acquisition of a library lock, every operation on a library atomic and every verif::yield_async site is a scheduling point of the seeded thread scheduler; the clock is a paused tokio clock moved by Advance operations. Non-trivial: some caller was admitted after waiting or was rejected. Distinct = distinct event-log digest.");
 rl_prop!(C15, "C15", "same scenario space as C02 (incl. limit usize::MAX, timeout Duration::MAX, shuffled builder calls with decoy values, a second service built from the same layer). In one run of six the wrapped service has a capacity (its readiness waits for a free slot, like tower's ConcurrencyLimit). One run in eight is a thread scenario (engine B): 2-4 shuttle threads drive clones of the real service with a no-op waker; every acquisition of a library lock, every operation on a library atomic and every verif::yield_async site is a scheduling point of the seeded thread scheduler; the clock is a paused tokio clock moved by Advance operations. Non-trivial: some caller was admitted after waiting or was rejected. Distinct = distinct event-log digest.");
 
 #[cfg(test)]
